@@ -1,5 +1,5 @@
 (* C16: extraction of the stream stage machines (StreamDefs.v) for the correspondence run. *)
 Require Extraction.
 Require Import ExtrOcamlBasic.
-From Gatery Require Import StreamDefs.
-Extraction "c16_model.ml" runChain chainOf matchD.
+From Gatery Require Import StreamDefs StreamRs.
+Extraction "c16_model.ml" runChain chainOf matchD rsRun.
